@@ -41,6 +41,14 @@ pub fn alphabet_direct(m: &[u32], vals: &[u32], maxlen: usize, oob: bool, entrie
     if oob {
         a.push(VOp::EntryGet(len));
         a.push(VOp::EntryGet(len + 1));
+        // indices and lengths at the edges of usize / isize
+        for e in [usize::MAX, usize::MAX - 1, usize::MAX / 2 + 1] {
+            a.push(VOp::Insert(e, vals[0]));
+            a.push(VOp::Set(e, vals[0]));
+            a.push(VOp::Remove(e));
+            a.push(VOp::EntryGet(e));
+            a.push(VOp::Truncate(e));
+        }
     }
     for n in 0..=len + 1 {
         a.push(VOp::Truncate(n));
